@@ -1144,6 +1144,11 @@ bool Parser::parseExpressionWithPrecedenceCast(ExpressionSyntax*& expr)
             if (!parseExpressionWithPrecedenceCast(expr))
                 return false;
             PSY_ASSERT_3(expr, return false, "invalid expression");
+            if (expr->extKwTkIdx_ != LexedTokens::invalidIndex()) {
+                // A node holds a single extension keyword.
+                diagReporter_.UnexpectedGNUExtensionFlag();
+                return false;
+            }
             expr->extKwTkIdx_ = extKwTkIdx;
             return true;
         }
